@@ -41,6 +41,10 @@ def ops(rng, pool):
         out.append(-(i + 1))
         if rng.random() < 0.2:
             out.append(i + 1)
+    if rng.random() < 0.12:
+        # a clear somewhere, and a few additions after it
+        out.insert(rng.randrange(len(out) + 1), 0)
+        out += [i + 1 for i in pool[: rng.randint(0, 3)]]
     return out
 
 
@@ -51,10 +55,10 @@ def tree(rng, depth=0):
 
 
 def case(rng):
-    combo = rng.choice([0, 0, 0, 1, 2, 3, 4])
+    combo = rng.choice([0, 0, 0, 1, 2, 3, 4, 5, 5, 6, 6])
     pa = indices(rng)
     a = ops(rng, pa)
-    if combo == 0:
+    if combo in (0, 5):
         b = []
     else:
         # the second set shares indices, words and blocks with the first
@@ -70,5 +74,5 @@ def pretty(c):
     na = c[p]; a = c[p + 1:p + 1 + na]; p += 1 + na
     nb = c[p]; b = c[p + 1:p + 1 + nb]; p += 1 + nb
     nt = c[p]; t = c[p + 1:p + 1 + nt]
-    f = lambda l: " ".join(("+%d" % (z - 1)) if z > 0 else ("-%d" % (-z - 1)) for z in l)
-    return "%s; a: %s; b: %s; splits: %s" % (["a", "a & b", "a | b", "a ^ b", "a & !b"][c[0]], f(a), f(b), "".join(map(str, t)))
+    f = lambda l: " ".join(("+%d" % (z - 1)) if z > 0 else ("-%d" % (-z - 1)) if z < 0 else "clear" for z in l)
+    return "%s; a: %s; b: %s; splits: %s" % (["a", "a & b", "a | b", "a ^ b", "a & !b", "atomic a", "b | atomic a"][c[0]], f(a), f(b), "".join(map(str, t)))
